@@ -105,6 +105,19 @@ fn cells(tier: &str) -> Vec<Value> {
             }
         }
     }
+    // reply frames that answer no request (no usable request id) arriving while requests are in flight
+    for stray in ["no-headers-but-tag", "no-req-id", "garbled-req-id", "empty-req-id", "negative-req-id", "never-issued-req-id", "huge-req-id"] {
+        for inflight in [0u32, 1, 2] {
+            v.push(json!({"cell": id, "family": "stray-reply", "calls": 3, "stray": stray, "while_request_in_flight": inflight}));
+            id += 1;
+        }
+    }
+    // a request that fails to be sent (over the frame limit) while clones are queued behind a
+    // blocked send, followed by a further request while an earlier one is still in flight
+    for variant in ["oversize-then-two", "two-oversize-then-two"] {
+        v.push(json!({"cell": id, "family": "failed-send-under-contention", "calls": 9, "variant": variant}));
+        id += 1;
+    }
     // many requestor streams on one topic, one request each, all in flight together
     for comp in ["none", "zstd"] {
         let k = 18usize;
@@ -360,6 +373,199 @@ async fn cell_inner(addr: SocketAddr, set: Arc<CertSet>, topic: String, c: Value
     Ok(tag.into())
 }
 
+/// Clones of one requestor. Six 900 KiB requests are issued while the replier does not read, so
+/// that a send blocks (holding the stream's write side) and the rest queue behind it; then one or
+/// two requests over the frame limit (they will fail to be sent) and a small request Y are queued
+/// as well. The replier starts serving; as soon as the oversized requests have failed, request Z
+/// is issued while Y's reply is still being withheld. Every Ok must be the caller's own reply.
+async fn contention_cell(addr: SocketAddr, set: Arc<CertSet>, topic: String, c: Value) -> Result<String, Fail> {
+    let variant = c["variant"].as_str().unwrap().to_string();
+    let class = format!("contention:{variant}");
+    let setup = |what: &str, e: String| fail("setup", what, format!("{what}: {e}"));
+    let raw = RawConn::connect(addr, &set.ca, Some(&set.client)).await.map_err(|e| setup("raw connect", e.to_string()))?;
+    let tn = TopicName::try_from(topic.as_str()).map_err(|e| setup("topic", e.to_string()))?;
+    let (mut rs, first) = raw.register(Frame::RegisterReplier(ReplierPayload { topic: tn })).await.map_err(|e| setup("register replier", e.to_string()))?;
+    if first != Some(Frame::Ok) {
+        return Err(setup("register replier", format!("answered {first:?}")));
+    }
+    let client = net::default_client(addr, &set).await.map_err(|e| setup("client connect", e.to_string()))?;
+    let req = client
+        .requestor(&topic)
+        .with_request_encoder(StringCodec)
+        .with_reply_decoder(StringCodec)
+        .with_request_timeout(Duration::from_secs(30))
+        .map_err(|e| setup("timeout config", e.to_string()))?
+        .open()
+        .await
+        .map_err(|e| fail("open-error", &class, format!("requestor open failed: {e}")))?;
+    // a request's body is "<name>|padding"; the reply is "re:<name>"
+    let call = |name: &str, pad: usize| {
+        let mut r = req.clone();
+        let body = format!("{name}|{}", "p".repeat(pad));
+        let name = name.to_string();
+        tokio::spawn(async move { (name, r.request(body).await) })
+    };
+    let mut flood = Vec::new();
+    for i in 0..6 {
+        flood.push(call(&format!("F{i}"), 900 * 1024));
+        tokio::time::sleep(Duration::from_millis(10)).await;
+    }
+    tokio::time::sleep(Duration::from_millis(400)).await;
+    let mut over = vec![call("X0", 1024 * 1024 + 10)];
+    tokio::time::sleep(Duration::from_millis(40)).await;
+    if variant == "two-oversize-then-two" {
+        over.push(call("X1", 1024 * 1024 + 10));
+        tokio::time::sleep(Duration::from_millis(40)).await;
+    }
+    let y = call("Y", 8);
+    tokio::time::sleep(Duration::from_millis(60)).await;
+    // the replier: answers everything, but holds Y's reply back until it has seen Z (or 2 s passed)
+    let replier = tokio::spawn(async move {
+        let mut held: Option<(Frame, Instant)> = None;
+        loop {
+            let next = tokio::time::timeout(Duration::from_millis(50), rs.next()).await;
+            if let Some((f, t)) = &held {
+                if t.elapsed() > Duration::from_secs(2) {
+                    let _ = rs.send(f.clone()).await;
+                    held = None;
+                }
+            }
+            match next {
+                Ok(Some(Ok(Frame::Message(p)))) => {
+                    let body = String::from_utf8_lossy(&p.message).to_string();
+                    let name = body.split('|').next().unwrap_or("").to_string();
+                    let reply = Frame::Message(MessagePayload { headers: p.headers, message: Bytes::from(format!("re:{name}").into_bytes()) });
+                    if name == "Y" {
+                        held = Some((reply, Instant::now()));
+                    } else {
+                        if name == "Z" {
+                            if let Some((f, _)) = held.take() {
+                                let _ = rs.send(f).await;
+                            }
+                        }
+                        let _ = rs.send(reply).await;
+                    }
+                }
+                Ok(Some(Ok(_))) => {}
+                Ok(Some(Err(_))) | Ok(None) => break,
+                Err(_) => {}
+            }
+        }
+    });
+    // the oversized requests fail (they cannot be framed); then Z while Y is still in flight
+    let mut results: Vec<(String, Result<String, SeliumError>)> = Vec::new();
+    for h in over {
+        let r = tokio::time::timeout(Duration::from_secs(40), h).await.map_err(|_| fail("hang", &class, "an oversized request neither returned nor failed within 40 s".into()))?.map_err(|e| setup("task", e.to_string()))?;
+        results.push(r);
+    }
+    let z = call("Z", 8);
+    for h in flood.into_iter().chain([y, z]) {
+        let r = tokio::time::timeout(Duration::from_secs(40), h).await.map_err(|_| fail("hang", &class, "a request neither returned nor failed within 40 s".into()))?.map_err(|e| setup("task", e.to_string()))?;
+        results.push(r);
+    }
+    replier.abort();
+    let mut oks = 0;
+    for (name, r) in &results {
+        match r {
+            Ok(v) if *v == format!("re:{name}") => oks += 1,
+            Ok(v) => {
+                return Err(fail(
+                    "wrong-reply",
+                    &class,
+                    format!("request {name} returned Ok({v:?}), the reply produced for another request (clones of one requestor: six large requests blocking the stream, oversized request(s) that failed to be sent queued behind them, then Y, and Z issued once those had failed while Y's reply was withheld); all results: {:?}", results.iter().map(|(n, r)| format!("{n}:{}", match r { Ok(v) => v.clone(), Err(e) => format!("Err({e})") })).collect::<Vec<_>>()),
+                ))
+            }
+            Err(_) if name.starts_with('X') => {}
+            Err(e) => {
+                return Err(fail(
+                    "sendable-request-failed",
+                    &class,
+                    format!("request {name} failed with {e} although it fits the frame limit and the replier answered it; all results: {:?}", results.iter().map(|(n, r)| format!("{n}:{}", match r { Ok(v) => v.clone(), Err(e) => format!("Err({e})") })).collect::<Vec<_>>()),
+                ))
+            }
+        }
+    }
+    Ok(format!("own-replies ({oks} ok)"))
+}
+
+/// Three sequential requests (ids 0, 1, 2) on one requestor stream; while request number
+/// `while_request_in_flight` waits, the replier first emits a frame that is routed to this
+/// requestor but answers no request, then the real reply.
+async fn stray_cell(addr: SocketAddr, set: Arc<CertSet>, topic: String, c: Value) -> Result<String, Fail> {
+    let stray = c["stray"].as_str().unwrap().to_string();
+    let at = c["while_request_in_flight"].as_u64().unwrap();
+    let class = format!("stray-reply:{stray}");
+    let setup = |what: &str, e: String| fail("setup", what, format!("{what}: {e}"));
+    let raw = RawConn::connect(addr, &set.ca, Some(&set.client)).await.map_err(|e| setup("raw connect", e.to_string()))?;
+    let tn = TopicName::try_from(topic.as_str()).map_err(|e| setup("topic", e.to_string()))?;
+    let (mut rs, first) = raw.register(Frame::RegisterReplier(ReplierPayload { topic: tn })).await.map_err(|e| setup("register replier", e.to_string()))?;
+    if first != Some(Frame::Ok) {
+        return Err(setup("register replier", format!("answered {first:?}")));
+    }
+    let stray_k = stray.clone();
+    let replier = tokio::spawn(async move {
+        while let Some(Ok(f)) = rs.next().await {
+            if let Frame::Message(p) = f {
+                let body = String::from_utf8_lossy(&p.message).to_string();
+                let n: u64 = body.rsplit('#').next().and_then(|x| x.parse().ok()).unwrap_or(99);
+                if n == at {
+                    // keeps the routing tag, so the server delivers it to this requestor
+                    let mut h = p.headers.clone().unwrap_or_default();
+                    match stray_k.as_str() {
+                        "no-headers-but-tag" | "no-req-id" => {
+                            h.remove("req_id");
+                        }
+                        "garbled-req-id" => {
+                            h.insert("req_id".into(), "zz".into());
+                        }
+                        "empty-req-id" => {
+                            h.insert("req_id".into(), String::new());
+                        }
+                        "negative-req-id" => {
+                            h.insert("req_id".into(), "-1".into());
+                        }
+                        "never-issued-req-id" => {
+                            h.insert("req_id".into(), "77".into());
+                        }
+                        _ => {
+                            h.insert("req_id".into(), "4294967296".into());
+                        }
+                    }
+                    if stray_k == "no-headers-but-tag" {
+                        h.retain(|k, _| k == "cid");
+                    }
+                    let _ = rs.send(Frame::Message(MessagePayload { headers: Some(h), message: Bytes::from_static(b"STRAY") })).await;
+                    tokio::time::sleep(Duration::from_millis(30)).await;
+                }
+                let _ = rs.send(Frame::Message(MessagePayload { headers: p.headers, message: Bytes::from(format!("re:{body}").into_bytes()) })).await;
+            }
+        }
+    });
+    let client = net::default_client(addr, &set).await.map_err(|e| setup("client connect", e.to_string()))?;
+    let mut req = client
+        .requestor(&topic)
+        .with_request_encoder(StringCodec)
+        .with_reply_decoder(StringCodec)
+        .with_request_timeout(Duration::from_millis(TIMEOUT_MS))
+        .map_err(|e| setup("timeout config", e.to_string()))?
+        .open()
+        .await
+        .map_err(|e| fail("open-error", &class, format!("requestor open failed: {e}")))?;
+    for n in 0u64..3 {
+        let payload = format!("{topic}#{n}");
+        let r = tokio::time::timeout(Duration::from_secs(15), req.request(payload.clone())).await.map_err(|_| fail("hang", &class, format!("request {n} neither returned nor timed out within 15 s")))?;
+        match r {
+            Ok(v) if v == format!("re:{payload}") => {}
+            Ok(v) => return Err(fail("stray-reply-leaked", &class, format!("request number {n} returned Ok({v:?}) instead of its own reply; a reply frame without a usable request id ({stray}) had been routed to this requestor while request number {at} was in flight"))),
+            // the very first request may race the replier's binding
+            Err(SeliumError::RequestTimeout) if n == 0 && at != 0 => {}
+            Err(e) => return Err(fail("own-reply-lost", &class, format!("request number {n} failed with {e}; its own reply was sent right after a stray frame ({stray})"))),
+        }
+    }
+    replier.abort();
+    Ok("stray-ignored".into())
+}
+
 /// Requests 1..=5 on one requestor stream; the reply to request 2 cannot be decoded. Every call
 /// that returns Ok must return the value produced for exactly that call.
 async fn undecodable_cell(addr: SocketAddr, set: Arc<CertSet>, topic: String, c: Value) -> Result<String, Fail> {
@@ -492,6 +698,12 @@ pub async fn run(tier: &str, replaying: bool) -> ! {
         async move {
             let topic = format!("/c04ns/t{}x{}", c["cell"], salt.fetch_add(1, Ordering::SeqCst));
             let nontrivial = c["calls"].as_u64().unwrap() >= 2;
+            if c["family"].as_str() == Some("failed-send-under-contention") {
+                return (true, contention_cell(addr, set.clone(), topic.clone(), c.clone()).await);
+            }
+            if c["family"].as_str() == Some("stray-reply") {
+                return (true, stray_cell(addr, set.clone(), topic.clone(), c.clone()).await);
+            }
             if c["family"].as_str() == Some("undecodable-reply") {
                 return (true, undecodable_cell(addr, set.clone(), topic.clone(), c.clone()).await);
             }
@@ -519,7 +731,7 @@ pub async fn run(tier: &str, replaying: bool) -> ! {
     finish(
         rep,
         outs,
-        "every cell of: k concurrent request() calls (k<=3 quick, <=4 thorough) x every set partition of the calls over requestor streams (calls in one block share a stream through clones; every stream numbers its requests from 0) x every subset left unanswered x every permutation of the answered ones as reply order x (if something is unanswered) late replies after the timeout followed by a fresh request per stream x compression {none,gzip,zstd} (all three for k<=2, rotating above); plus 18 requestor streams with one request each, answered in reverse order; plus the undecodable-reply family: five sequential requests whose second reply cannot be decoded (truncated / one byte / empty) x reply decoder {bincode tuple, string} x the later requests issued on {the same handle, a clone taken before, a clone taken after the failure}: request 2 must fail and every other call must return exactly the value produced for it. The raw replier first collects all k requests, so all are in flight together. non-trivial = at least two concurrent calls",
+        "every cell of: k concurrent request() calls (k<=3 quick, <=4 thorough) x every set partition of the calls over requestor streams (calls in one block share a stream through clones; every stream numbers its requests from 0) x every subset left unanswered x every permutation of the answered ones as reply order x (if something is unanswered) late replies after the timeout followed by a fresh request per stream x compression {none,gzip,zstd} (all three for k<=2, rotating above); plus 18 requestor streams with one request each, answered in reverse order; plus the undecodable-reply family: five sequential requests whose second reply cannot be decoded (truncated / one byte / empty) x reply decoder {bincode tuple, string} x the later requests issued on {the same handle, a clone taken before, a clone taken after the failure}: request 2 must fail and every other call must return exactly the value produced for it; plus the stray-reply family: while request number 0, 1 or 2 of a requestor is in flight the replier first emits a frame that carries the routing tag but no usable request id (none, garbled, empty, negative, never issued, out of range) and then the real reply: every call must return its own reply. The raw replier first collects all k requests, so all are in flight together. non-trivial = at least two concurrent calls",
         "replies are a pure function of the request payload, so a misdelivered reply is visible in the returned value",
         json!({"timeout_ms": TIMEOUT_MS}),
         replaying,
